@@ -107,6 +107,31 @@ def fam_b2(case, fl):
     return fam_b(case, fl) and any(fl["name"] in d for d in fl.get("ns", []))
 
 
+def fam_l(case, fl):
+    """inside a function: n is a comprehension variable and is read by a nested comprehension / lambda inside that same
+    `for` clause's iterable.  The deferred check aliases (does not clone) the enclosing comprehension scope, so the
+    later store of the loop variable hides the read; at run time the iterable is evaluated before n exists"""
+    if not _unsound(fl):
+        return False
+    n = fl["name"]
+    for s in _stmts(case):
+        es, ts = G.stmt_exprs(s)
+        for e in es + ts:
+            for x in G.walk_exprs(e):
+                if x[0] in ("listComp", "setComp", "genExp", "dictComp"):
+                    for g in x[-1]:
+                        if n in G.target_names(g[0]) and _comp_or_lambda_reads(g[1], n):
+                            return True
+    return False
+
+
+def _comp_or_lambda_reads(e, n):
+    for x in G.walk_exprs(e):
+        if x[0] in ("listComp", "setComp", "genExp", "dictComp", "lambda") and n in G.names_read(x):
+            return True
+    return False
+
+
 def fam_imp(case, fl):
     """imprecision: a dotted name below a package that an import statement of the program loads as a side effect
     (`from pa.s2 import m1` makes `pa.s2` resolvable when `pa` was already bound)"""
@@ -180,6 +205,22 @@ def fam_j(case, fl):
     return False
 
 
+def _attr_stored_prefix(case, dotted):
+    parts = dotted.split(".")
+    pre = {".".join(parts[:k]) for k in range(2, len(parts) + 1)}
+    for s in _stmts(case):
+        es, ts = G.stmt_exprs(s)
+        for t in ts:
+            for x in ([t] if t[0] != "tuple" else t[1]):
+                if x[0] == "attr":
+                    try:
+                        if G.r_expr(x) in pre:
+                            return True
+                    except Exception:
+                        pass
+    return False
+
+
 def _code(fl, what):
     return fl.get("variant") == "code" and fl.get("what") == what
 
@@ -187,7 +228,7 @@ def _code(fl, what):
 def fam_code_bound(case, fl):
     """bytecode variant, unsound: the name has a binding statement somewhere in the program (the variant only looks for
     a STORE of the same name in the same code object, before the load or anywhere once there is a backward jump)"""
-    return _code(fl, "NameError name not reported") and bool(G.binding_sites(fl["src"], fl["name"]))
+    return _code(fl, "NameError name not reported") and bool(G.binding_sites(fl["src"], fl["name"])[0])
 
 
 def fam_code_attr(case, fl):
@@ -199,20 +240,30 @@ def fam_code_imprecise(case, fl):
     """bytecode variant, imprecise: `__annotations__`, or a (dotted) name whose head is bound by the program itself
     (loads in a code object are only matched against stores of the identical dotted name in the same code object)"""
     return _code(fl, "reported name whose lookups all succeed") and (
-        fl["name"] == "__annotations__" or bool(G.binding_sites(fl["src"], fl["name"].split(".")[0])))
+        fl["name"] == "__annotations__" or bool(G.binding_sites(fl["src"], fl["name"].split(".")[0])[0])
+        or _attr_stored_prefix(case, fl["name"]))
 
 
 FAMILIES = dict(classCompRead=fam_a, exceptNameAfter=fam_b, augUnbound=fam_c, classNameRemoved=fam_d,
                 unexecutedBinding=fam_e, targetInHeader=fam_f, annAssignTarget=fam_g, attrStoreUnbound=fam_i,
-                paramInAnnotation=fam_j, exceptNameInCallerNs=fam_b2, importSideEffect=fam_imp,
+                paramInAnnotation=fam_j, compVarInOwnIterable=fam_l, exceptNameInCallerNs=fam_b2, importSideEffect=fam_imp,
                 codeStoreExists=fam_code_bound, codeAttrStore=fam_code_attr, codeImprecise=fam_code_imprecise)
 
 
 class C05(Prop):
     id = "C05"
     driver = "C05"
-    lean_modules = ["Pfb.C05.Props"]
-    theorems = []
+    lean_modules = ["Pfb.C05.Props", "Pfb.PyCore.Json"]
+    theorems = [
+        "Pfb.C05.C05_sound_fragA",
+        "Pfb.C05.C05_precise_fragA",
+        "Pfb.PyCore.symbolNeedsImport_spec",
+        "Pfb.PyCore.walkAttrs_none_iff",
+        "Pfb.C05.agree_mk",
+        "Pfb.C05.witness_a", "Pfb.C05.witness_b", "Pfb.C05.witness_c", "Pfb.C05.witness_d", "Pfb.C05.witness_d2",
+        "Pfb.C05.witness_e", "Pfb.C05.witness_f", "Pfb.C05.witness_g", "Pfb.C05.witness_g2", "Pfb.C05.witness_h",
+        "Pfb.C05.witness_i", "Pfb.C05.witness_j",
+    ]
     anchors = [
         ("lib/python/pyflyby/_autoimp.py", "ScopeStack"),
         ("lib/python/pyflyby/_autoimp.py", "symbol_needs_import"),
@@ -227,9 +278,26 @@ class C05(Prop):
     thorough_cases = 60000
     quick_deadline_s = 55
     thorough_deadline_s = 600
-    rule = ""
-    trusted_base = []
-    assumptions = []
+    rule = ("mini-Python programs from harness/gen_c05.py (assign/augassign/annassign/import/def with defaults, annotations, "
+            "decorators/lambda/class/4 comprehension kinds/for/while/if/with/try/raise/return, attribute chains, calls; nesting "
+            "depth <= 3; every function and method called after the last module-level statement) x initial namespaces (empty, "
+            "names present, registry modules with/without the attribute, non-registry module objects) x loaded part of a synthetic "
+            "import universe; each case is executed on CPython by define-and-rerun (one oracle evaluation per run) and analysed by "
+            "find_missing_imports on source and on the compiled code object; plus the D9 corpus and an exhaustive small scope of "
+            "<= 3 statements over 16 statement forms x 2 names; non-trivial = program of >= 2 lines, distinct by source+namespaces")
+    trusted_base = ["CPython 3.12 executes the rendered program: NameError/AttributeError events, executed reads and stores are "
+                    "taken from sys.settrace opcode events (the oracle never consults the Lean models)",
+                    "Pfb.PyCore.Exec is a model of CPython validated run-by-run by K(b), not derived from CPython",
+                    "the renderer mini-AST -> source and the universal dummy `_K` (harness/gen_c05.py)"]
+    assumptions = ["claimed domain: no function/lambda runs before the last module-level statement (checked per run, cases that "
+                   "violate it are not judged); global/nonlocal/del are generated at a low rate as unclaimed extension and not judged",
+                   "soundness/precision theorems are proved for fragment A only (straight-line module-level code over names, "
+                   "constants, +, tuples, lists, subscripts, conditional expressions, single-name assignments); outside it the "
+                   "claim rests on K(a) (findMissing = find_missing_imports), K(b) (Exec = CPython) and the oracle",
+                   "the unchanged code is unsound on the D9 families listed in known_findings/C05.json (each with a decide-proved "
+                   "counterexample in Pfb/C05/Props.lean)",
+                   "K(b) skips runs in which CPython or the model raises an exception type the model does not track exactly "
+                   "(TypeError etc.) and tolerates one CPython 3.12 quirk (PEP 709 sibling-comprehension fast locals)"]
 
     def setup(self, tier, rng):
         G.install_builtins()
@@ -239,11 +307,74 @@ class C05(Prop):
 
     # -- cases -----------------------------------------------------------------
     def gen_case(self, rng, i, tier):
-        g = G.Gen(rng, ext=(rng.random() < 0.05))
-        r = rng.random()
-        prog = g.program(nstmts=rng.choice([1, 1, 2]) if r < 0.3 else None)
+        for _ in range(6):
+            g = G.Gen(rng, ext=(rng.random() < 0.05))
+            r = rng.random()
+            prog = g.program(nstmts=rng.choice([1, 1, 2]) if r < 0.3 else None)
+            try:
+                compile(G.render(prog)[0], "<gen>", "exec", dont_inherit=True)
+                break
+            except SyntaxError:        # e.g. `global y` after a use of y: not a program
+                continue
         nss, loaded = G.gen_nsspec(rng)
         return dict(prog=prog, ns=nss, loaded=loaded, ext=("ext" in g.features))
+
+    FORMS = None
+
+    @classmethod
+    def forms(cls):
+        if cls.FORMS is None:
+            N = lambda s: ["name", s]
+            K = ["const"]
+            out = []
+            for a in ("x", "y"):
+                for b in ("x", "y"):
+                    out += [
+                        ["expr", N(a)],
+                        ["assign", [N(a)], N(b)],
+                        ["assign", [N(a)], K],
+                        ["augAssign", N(a), N(b)],
+                        ["import", [["pa", a]]],
+                        ["importFrom", "pa", [["m1", a]]],
+                        ["funcDef", "f", {"args": [], "defaults": []}, [["return", N(a)]], [], None],
+                        ["funcDef", "g", {"args": [[a, None]], "defaults": [N(b)]}, [["assign", [N(b)], N(a)], ["return", N(b)]], [], None],
+                        ["classDef", "C", [], [["assign", [N(a)], N(b)], ["funcDef", "f", {"args": [], "defaults": []}, [["return", N(a)]], [], None]], []],
+                        ["for", N(a), ["list", [N(b)]], [["pass"]], []],
+                        ["if", ["bool", False], [["assign", [N(a)], K]], [["expr", N(b)]]],
+                        ["try", [["expr", N(b)], ["raise", N("Exception")]], [[N("Exception"), a, [["pass"]]]], [], []],
+                        ["assign", [N(a)], ["listComp", N(b), [[N(b), ["list", [N(a)]], []]]]],
+                        ["with", [[N(b), N(a)]], [["pass"]]],
+                        ["assign", [["attr", N(a), "u"]], N(b)],
+                        ["annAssign", N(a), N(b), N(b)],
+                    ]
+            # drop exact duplicates
+            seen, uniq = set(), []
+            for f in out:
+                k = json.dumps(f)
+                if k not in seen:
+                    seen.add(k)
+                    uniq.append(f)
+            cls.FORMS = uniq
+        return cls.FORMS
+
+    def exhaustive_cases(self, tier, rng):
+        import itertools
+        F = self.forms()
+        g = G.Gen(rng)
+        combos = [(i,) for i in range(len(F))] + list(itertools.product(range(len(F)), repeat=2))
+        if tier == "thorough":
+            combos += [tuple(rng.randrange(len(F)) for _ in range(3)) for _ in range(12000)]
+        else:
+            combos = [(i,) for i in range(len(F))] + rng.sample(combos[len(F):], 260) + \
+                     [tuple(rng.randrange(len(F)) for _ in range(3)) for _ in range(120)]
+        out = []
+        for c in combos:
+            body = [F[i] for i in c]
+            prog = {"body": body, "calls": g.call_stmts(body)}
+            r = rng.random()
+            ns = [{}] if r < 0.6 else [{"x": ["obj"]}] if r < 0.8 else [{"pa": ["mod", "pa"]}]
+            out.append(dict(prog=prog, ns=ns, loaded=["pa"] if r >= 0.8 or rng.random() < 0.3 else [], ext=False))
+        return out
 
     # -- implementation --------------------------------------------------------
     def _report(self, arg, nss):
